@@ -1,13 +1,16 @@
 From Coq Require Import extraction.Extraction extraction.ExtrOcamlBasic.
 From TU Require Import RNG_Model.
-From TU Require Import Base C15_Model C15_Seam C15_Seeded.
+From TU Require Import Base C15_Model C15_Seam C15_Seeded C15_Classes C15_Tables C15_Spell.
 (** model output = (relational-model-output seeded): [seeded] = the results of the calls of the chain
     (resp. the words corrupt_spelling returns) computed FROM THE SEED by the generator model
     (RNG_Model: ChaCha8, random_range, WeightedIndex<f64>) and the generator's final position *)
-Definition run := run_C15s.
+(** fourth stream: the corrupted text as [C15_Spell.spell_text] computes it from the text, the dictionary content,
+    the misspellings, the probabilities and the seed (words, clusters, classes, tables, draws all inside) *)
+Definition run := run_C15t.
 (** the executable statement on the relational part of the implementation output; corrupt_spelling
     stream: additionally two independent runs on the same text and seed returned the same words *)
-Definition check := check_C15s.
+(** fourth stream: the two runs agree; inside the domain [dom4] neither panicked *)
+Definition check := check_C15t.
 (** two lines.
     Relational (unchanged, on the first component of the outputs): the provider probe must be equal, and
     every (word, exclusion set) the implementation returned along the chain must be an element of the
@@ -19,6 +22,10 @@ Definition check := check_C15s.
     EXACT ([exact_edit] / [exact_e2e] of C15_Seeded): given the seed, every (word, exclusion set) along
     the chain equals the seeded model's, call for call, the generator ends at the same word position,
     and the flags "weight > 0" of the tables are the signs of the f64 weights; corrupt_spelling stream:
-    the words of the corrupted text equal the seeded model's. *)
-Definition agree (inp m i : val) : bool := agree_C15s agree_C15u inp m i.
+    the words of the corrupted text equal the seeded model's.
+    CLASSES (all streams): every class boolean the harness sends (can_delete / can_swap per call, the class
+    oracle of the corrupt_spelling streams) equals the model's ([C15_Classes.classes_ok], UCD_Model).
+    FOURTH STREAM: both runs print exactly the model's text (or both panic where the model faults), and the
+    harness' view of the text (split_words, clusters, classes from the real crate) is the model's ([aux_ok]). *)
+Definition agree (inp m i : val) : bool := agree_C15t agree_C15u inp m i.
 Extraction "model.ml" run check agree.
